@@ -119,11 +119,15 @@ def _check_dykstra_contract(H, d, P):
     if not np.all(np.isfinite(d.xin)):
         H.count('c15.nonfinite_input')
         return
-    # last set: the result is a fixed point of the last projector (exactly inside when it is a box / ball)
+    # last set: exactly inside when it is a box (model / solver / controller callers append the bound box last; the
+    # trust-region callers append the ball last, for which the statement claims nothing beyond the tolerance clause)
     last = P[-1](x.copy())
     scale = max(1.0, float(np.max(np.abs(x))))
-    if not np.all(np.abs(last - x) <= 4 * EPS * scale):
-        H.flag_insitu('C15', 'not_in_last_set', site, 'distance to last set %.3e' % float(np.linalg.norm(last - x)))
+    if d.mod != 'trust_region' and not np.all(last == x):
+        H.flag_insitu('C15', 'not_in_last_set', site, 'last set is the bound box, distance to it %.3e' % float(np.linalg.norm(last - x)))
+    # rounding floor of the routine's own arithmetic: it adds and subtracts correction vectors of the size of the input
+    # (x_in = 1e15 leaves an absolute error of ~0.1 in every sub-step: the theorem below holds in exact arithmetic only)
+    rnd_floor = 16 * EPS * max(scale, float(np.max(np.abs(d.xin)))) * p
     stopped_by_rule = d.sweeps < d.max_iter
     dists = [float(np.linalg.norm(x - Pi(x.copy()))) for Pi in P]
     if stopped_by_rule:
@@ -132,7 +136,7 @@ def _check_dykstra_contract(H, d, P):
         worst = max(dists)
         H.dyk_stats['rule'] += 1
         H.dyk_stats['maxratio'] = max(H.dyk_stats['maxratio'], worst / bound if bound > 0 else 0.0)
-        if worst > bound * (1 + 1e-9) + 8 * EPS * scale:
+        if worst > bound * (1 + 1e-9) + rnd_floor:
             H.flag_insitu('C15', 'outside_tolerance', site, 'dist %.3e > sqrt(p*tol)=%.3e (p=%d tol=%g sweeps=%d)' % (worst, bound, p, d.tol, d.sweeps))
     else:
         H.dyk_stats['cap'] += 1
@@ -149,7 +153,7 @@ def _check_dykstra_contract(H, d, P):
             H.count('c15.reference_compared')
             err = float(np.linalg.norm(x - xref))
             H.dyk_stats['maxerr'] = max(H.dyk_stats.get('maxerr', 0.0), err)
-            if err > 1e-3:
+            if err > 1e-3 + rnd_floor:
                 H.flag_insitu('C15', 'not_near_projection', site, 'distance to reference projection %.3e' % err)
 
 
